@@ -92,8 +92,8 @@ func c03Plan(tier string) []PlanItem {
 func init() {
 	oracles["C03"] = oracleC03
 	props["C03"] = &propDef{
-		Level: "fault_enumeration",
-		Rule:  "fault position x fault kind x timing configuration: the fault begins at heartbeat attempt i in 1..5; kinds = immediate error (nats timeout / no responders / connection closed), hang until the library's time-out, write applied but acknowledgement lost, permanent partition, record replaced by another id, record deleted, record expired; configurations K1 (H=200ms,TTL=600ms), K2 (200ms,1s), K3 (4s,12s: time-out H/2); on top of each, every execution with <= D latency/placement deviations; non-trivial = the leader was demoted after the fault; distinct = distinct observation-trace hash",
+		Level:  "fault_enumeration",
+		Rule:   "fault position x fault kind x timing configuration: the fault begins at heartbeat attempt i in 1..5; kinds = immediate error (nats timeout / no responders / connection closed), hang until the library's time-out, write applied but acknowledgement lost, permanent partition, record replaced by another id, record deleted, record expired; configurations K1 (H=200ms,TTL=600ms), K2 (200ms,1s), K3 (4s,12s: time-out H/2); on top of each, every execution with <= D latency/placement deviations; non-trivial = the leader was demoted after the fault; distinct = distinct observation-trace hash",
 		Assume: []string{"single leader, no competing instance (a competitor only adds earlier causes of demotion)", "reference store returns the real NATS error values"},
 		Plan:   c03Plan,
 	}
@@ -155,6 +155,7 @@ func oracleC03(r *Result) ([]Violation, bool) {
 	// H + 2T while the group's live record is absent or somebody else's
 	{
 		var since time.Duration = -1
+		var prevT, prevExp time.Duration = -1, -1 // previous snapshot, and the expiry of A's record seen there
 		for _, e := range r.Trace {
 			if e.K != "q" {
 				continue
@@ -169,6 +170,11 @@ func oracleC03(r *Result) ([]Violation, bool) {
 			if claiming && !backed {
 				if since < 0 {
 					since = e.T
+					// nothing happened between the previous snapshot and this one except the
+					// passage of time: the record seen there lapsed at its expiry
+					if prevExp >= prevT && prevExp <= e.T && prevT >= 0 {
+						since = prevExp
+					}
 				}
 				if e.T-since > H+2*T+ms {
 					s.add(e.T, "claim-outlives-record", "%s: A has been reporting leadership since %v without a live record of its own (now %v, bound H+2T = %v)", kind, since, e.T, H+2*T)
@@ -176,6 +182,10 @@ func oracleC03(r *Result) ([]Violation, bool) {
 				}
 			} else {
 				since = -1
+			}
+			prevT, prevExp = e.T, -1
+			if backed && r.Scn.TTL > 0 {
+				prevExp = e.Rec.At + r.Scn.TTL
 			}
 		}
 	}
